@@ -6,6 +6,7 @@ import Mmmbbb.Model.Step
 import Mmmbbb.Model.Tx
 import Mmmbbb.Model.Pure
 import Mmmbbb.Model.Api
+import Mmmbbb.Model.Ordered
 open Mmmbbb Mmmbbb.Codec
 
 abbrev Fields := List (String × String)
@@ -249,6 +250,19 @@ structure DState where
   st      : St := {}
   pending : List PubMsg := []
   lineNo  : Nat := 0
+  /-- ordered-delivery refinement (`Ord.stepOk`) over the steps replayed so far: steps checked, steps
+      outside the hypotheses of `C05_ordered_partial` (seeks, configuration updates), steps on which only
+      the clock assumption failed -/
+  ordChecked  : Nat := 0
+  ordExcluded : Nat := 0
+  ordStamps   : Nat := 0
+
+/-- the refinement obligation of one store step -/
+def ordCheck (ds : DState) (st' : St) (excluded : Bool) : DState × Option String :=
+  if Ord.stepOk true ds.st.db ds.st.now st'.db st'.now then ({ ds with ordChecked := ds.ordChecked + 1 }, none)
+  else if excluded then ({ ds with ordExcluded := ds.ordExcluded + 1 }, none)
+  else if Ord.stepOk false ds.st.db ds.st.now st'.db st'.now then ({ ds with ordStamps := ds.ordStamps + 1 }, none)
+  else (ds, some "MISMATCH kind=ordered-refinement the step is neither a growth nor a shrink of the deliveries table in the sense of Ord.stepOk")
 
 def sortNat (l : List Nat) : List Nat := sortBy id l
 
@@ -260,6 +274,7 @@ def handle (ds : DState) (line : String) : DState × String :=
   | op :: rest =>
     let fs := parseFields rest
     if op == "reset" then ({ lineNo := ds.lineNo }, "ok")
+    else if op == "ordstats" then (ds, s!"R checked={ds.ordChecked} excluded={ds.ordExcluded} stamps={ds.ordStamps}")
     else if op == "dump" then
       let mine := dump ds.st.db
       match rest with
@@ -294,6 +309,7 @@ def handle (ds : DState) (line : String) : DState × String :=
           else
             let ds := { ds with st := { ds.st with now := t } }
             let (db', resp) := Api.handle ds.st.db ds.st.now r
+            let (ds, _) := ordCheck ds { ds.st with db := db' } true
             let ds' := { ds with st := { ds.st with db := db' } }
             let exp := (fget fs "exp").getD ""
             let body := ((fget fs "body").bind dec).getD ""
@@ -317,9 +333,11 @@ def handle (ds : DState) (line : String) : DState × String :=
           if t != ds.st.now then (ds, s!"MISMATCH kind=time model={ds.st.now} impl={t}")
           else
             let (st', out) := step ds.st o
+            let (ds, ordBad) := ordCheck ds st' (op == "seek_time" || op == "seek_snap")
             let ds' := { ds with st := st' }
             let exp := (fget fs "exp").getD ""
-            if out.resp != exp then (ds', s!"MISMATCH kind=resp model={out.resp} impl={exp}")
+            if let some b := ordBad then (ds', b)
+            else if out.resp != exp then (ds', s!"MISMATCH kind=resp model={out.resp} impl={exp}")
             else
               match fget fs "wk" with
               | none => (ds', "ok")
